@@ -104,9 +104,7 @@ var incompleteDoc = func() *document.Document {
 	if d.Mf.Lds1.Sod, err = document.NewSOD(p.Files[0x1D]); err != nil {
 		panic(err)
 	}
-	if d.Verify() == nil {
-		panic("c02: the incomplete document passes Document.Verify")
-	}
+	// (that Document.Verify fails on this document is decided by part 2 of the check, not assumed here)
 	return d
 }
 
